@@ -74,22 +74,26 @@ func c16Succeeds(kind string) bool { return strings.HasPrefix(kind, "ok") || c16
 func c16IsHTTP(kind string) bool   { return kind == c16OKHTTP || strings.HasPrefix(kind, "http-") }
 
 type c16Src struct {
-	Kind string `json:"kind"`
-	Seed uint64 `json:"seed"`
+	Kind       string `json:"kind"`
+	Seed       uint64 `json:"seed"`
+	MapFile    string `json:"map_file,omitempty"`     // binary-location stream: file name of the profile's mapping
+	MapBuildID string `json:"map_build_id,omitempty"` // … and its build id ("" = none)
 }
 
 type c16Case struct {
-	Name      string   `json:"name"`
-	Sources   []c16Src `json:"sources"`
-	Bases     []c16Src `json:"bases,omitempty"`
-	DiffBase  bool     `json:"diff_base,omitempty"`
-	Schedules [][]int  `json:"schedules"`           // per schedule: delay in µs for sources ++ bases
-	AltKinds  []string `json:"alt_kinds,omitempty"` // other way of failing for failing sources ("" = same); run under Schedules[0]
-	Text      bool     `json:"text,omitempty"`      // also check -traces and -top
-	CLI       bool     `json:"cli,omitempty"`       // run through the pprof binary (file kinds only)
-	Real      bool     `json:"real_transport,omitempty"` // URL sources go through the production internal/transport to local servers (c16_tls.go)
-	UseCA     bool     `json:"use_ca,omitempty"`         // pass server B's certificate with -tls_ca
-	Orders    [][]int  `json:"orders,omitempty"`         // Real: per run the rank at which each fetch (sources ++ bases) is released, one after the other
+	Name      string        `json:"name"`
+	Sources   []c16Src      `json:"sources"`
+	Bases     []c16Src      `json:"bases,omitempty"`
+	DiffBase  bool          `json:"diff_base,omitempty"`
+	Schedules [][]int       `json:"schedules"`                 // per schedule: delay in µs for sources ++ bases
+	AltKinds  []string      `json:"alt_kinds,omitempty"`       // other way of failing for failing sources ("" = same); run under Schedules[0]
+	Text      bool          `json:"text,omitempty"`            // also check -traces and -top
+	CLI       bool          `json:"cli,omitempty"`             // run through the pprof binary (file kinds only)
+	Bin       bool          `json:"binary_location,omitempty"` // mappings are located under a generated $PPROF_BINARY_PATH tree (c16_bin.go)
+	Tree      []c16BinEntry `json:"tree,omitempty"`
+	Real      bool          `json:"real_transport,omitempty"` // URL sources go through the production internal/transport to local servers (c16_tls.go)
+	UseCA     bool          `json:"use_ca,omitempty"`         // pass server B's certificate with -tls_ca
+	Orders    [][]int       `json:"orders,omitempty"`         // Real: per run the rank at which each fetch (sources ++ bases) is released, one after the other
 }
 
 func (cs *c16Case) all() []c16Src { return append(append([]c16Src{}, cs.Sources...), cs.Bases...) }
@@ -176,7 +180,11 @@ func c16Time(group, id int) int64 {
 }
 
 func c16ProfileOf(group, id int, s c16Src) *profile.Profile {
-	return c16Profile(group, id, s.Seed, s.Kind == c16OKEmpty, s.Kind == c16Invalid || s.Kind == c16InvalidFile)
+	p := c16Profile(group, id, s.Seed, s.Kind == c16OKEmpty, s.Kind == c16Invalid || s.Kind == c16InvalidFile)
+	if s.MapFile != "" {
+		p.Mapping[0].File, p.Mapping[0].BuildID = s.MapFile, s.MapBuildID
+	}
+	return p
 }
 
 func c16Bytes(p *profile.Profile) []byte {
@@ -426,8 +434,8 @@ func (u *c16UI) PrintErr(a ...interface{}) {
 	u.errs = append(u.errs, fmt.Sprint(a...))
 	u.mu.Unlock()
 }
-func (u *c16UI) IsTerminal() bool                  { return false }
-func (u *c16UI) WantBrowser() bool                 { return false }
+func (u *c16UI) IsTerminal() bool                    { return false }
+func (u *c16UI) WantBrowser() bool                   { return false }
 func (u *c16UI) SetAutoComplete(func(string) string) {}
 
 type c16Flags struct {
@@ -459,9 +467,9 @@ func (f *c16Flags) StringList(n, d, _ string) *[]*string {
 	}
 	return &l
 }
-func (f *c16Flags) ExtraUsage() string      { return "" }
-func (f *c16Flags) AddExtraUsage(string)    {}
-func (f *c16Flags) Parse(func()) []string   { return f.args }
+func (f *c16Flags) ExtraUsage() string    { return "" }
+func (f *c16Flags) AddExtraUsage(string)  {}
+func (f *c16Flags) Parse(func()) []string { return f.args }
 
 type c16Sym struct{}
 
@@ -506,6 +514,7 @@ type c16Obs struct {
 	MaxActive  [2]int
 	Slots      []*c16Slot
 	Unknown    int
+	TreeDir    string
 }
 
 func c16WriteFiles(dir string, cs *c16Case, kinds []string) {
@@ -595,6 +604,17 @@ func c16ExecOrd(root string, cs *c16Case, kinds []string, delays, order []int, f
 	ui := &c16UI{}
 	w := &c16Writer{bufs: map[string]*bytes.Buffer{}}
 	o := &driver.Options{Writer: w, Flagset: fl, Fetch: run, Sym: c16Sym{}, Obj: c16Obj{}, UI: ui, HTTPTransport: run}
+	if cs.Bin {
+		// the same directory for every run of the case: the located file names are part of the report
+		tree := filepath.Join(root, "bintree")
+		os.RemoveAll(tree)
+		c16WriteTree(tree, cs.Tree)
+		old := os.Getenv("PPROF_BINARY_PATH")
+		os.Setenv("PPROF_BINARY_PATH", tree)
+		defer os.Setenv("PPROF_BINARY_PATH", old)
+		o.Obj = c16BinObj{}
+		obs.TreeDir = tree
+	}
 	if cs.Real {
 		srv := c16StartServers(root)
 		srv.setBodies(bodies)
@@ -784,6 +804,12 @@ func (k *c16Checker) check(cs *c16Case, label string, kinds []string, exp *c16Ex
 			ok = viol(sig, fmt.Sprintf("merged comments (one per source, in merge order) are %s, want %s", trunc16(strings.Join(p.Comments, " ")), trunc16(strings.Join(exp.Comments, " "))))
 		} else if p.DocURL != exp.DocURL {
 			ok = viol("C16/order/first-source-header", fmt.Sprintf("DocURL %q, want that of the first successful source %q", p.DocURL, exp.DocURL))
+		}
+		if cs.Bin {
+			got, want := c16BinObserved(p, obs.TreeDir), c16BinExpected(cs, kinds)
+			if sig, what := c16BinDiff(cs, got, want); sig != "" {
+				ok = viol(sig, what)
+			}
 		}
 		// all generated collection times are non-zero, so this holds with and without the
 		// earliest-non-zero repair of combineHeaders (C03)
@@ -1068,6 +1094,41 @@ func (k *c16Checker) model(cs *c16Case, label string, kinds []string, obs *c16Ob
 	}
 }
 
+// modelLocate: the harness' expectation of which tree entry a mapping resolves to must be the model's.
+func (k *c16Checker) modelLocate(cs *c16Case) {
+	code := map[string]int{"": 0}
+	num := func(x string) int {
+		if v, ok := code[x]; ok {
+			return v
+		}
+		code[x] = len(code)
+		return code[x]
+	}
+	var tr []string
+	for _, e := range cs.Tree {
+		tr = append(tr, fmt.Sprintf("%d %d %d", num(e.Dir), num(e.Name), num(e.ID)))
+	}
+	for _, s := range cs.all() {
+		if s.MapFile == "" {
+			continue
+		}
+		want := "none"
+		for i, e := range cs.Tree {
+			if rel := c16BinLocate(cs.Tree, s.MapFile, s.MapBuildID); rel != "" && rel == filepath.Join(e.Dir, e.Name) {
+				want = strconv.Itoa(i)
+				break
+			}
+		}
+		req := strings.Join(strings.Fields(fmt.Sprintf("fetch.locate %d %s %d %d", len(cs.Tree), strings.Join(tr, " "), num(filepath.Base(s.MapFile)), num(s.MapBuildID))), " ")
+		k.c.Res.ModelCompared++
+		if rep := k.c.Drv.Ask(req); rep != want {
+			k.c.Disagree("C16/model/locate", fmt.Sprintf("[%s] mapping (%s, %q): model resolves to entry %s, harness expectation %s", cs.Name, s.MapFile, s.MapBuildID, rep, want),
+				"Fetch.locate (Model/Fetch.lean) ↔ harness c16BinLocate", cs)
+			return
+		}
+	}
+}
+
 // ---------------------------------------------------------------------------------------------
 // running one case
 
@@ -1221,6 +1282,10 @@ func (k *c16Checker) runCase(cs *c16Case) {
 	nf := exp.NFail[0] + exp.NFail[1]
 	nontrivial := n+m >= 2 && nf >= 1 && len(exp.OkSrc)+len(exp.OkBase) >= 1 && nonIndexOrder && len(orders) >= 2
 	canon := fmt.Sprintf("%v|%v|%v|%v|%v", kinds, cs.DiffBase, cs.Schedules, cs.Orders, cs.UseCA)
+	if cs.Bin {
+		c.Res.Hit("binary-location-cases")
+		k.modelLocate(cs)
+	}
 	if cs.Real {
 		c.Res.Hit("real-transport-cases")
 		if cs.UseCA {
@@ -1504,7 +1569,7 @@ func runC16(c *Ctx) {
 }
 
 func c16Worker(c *Ctx) {
-	c.Res.Rule = "cases: 1…300 sources (all sizes 1-8 with every outcome vector and EVERY completion order for n=3, sizes around the 127/128/129 and 255/256/257 chunk boundaries, random sizes) × 0…130 -base/-diff_base sources, each source independently a valid profile (from the Fetcher plug-in, a file, or an HTTP body), or failing (Fetcher error, missing file, garbage file/body, invalid profile, HTTP 500, transport error); a stream of 2…8 sources (+ bases) mixing https:// (untrusted server: must fail; server trusted through -tls_ca: must succeed), https+insecure://, http:// and file/plug-in sources fetched through the PRODUCTION internal/transport against servers on 127.0.0.1, released one after the other in PRNG permutations, all-insecure-first and all-strict-first orders, plus one delay-scheduled run through the driver's default transport wiring; each case runs the real driver.PProf under ≥3 PRNG-derived delay schedules (random, reverse, failures-first) and with the failing sources failing differently. non-trivial = ≥2 sources, at least one success and one failure, an observed completion order that is not the command-line order and ≥2 distinct observed completion orders."
+	c.Res.Rule = "cases: 1…300 sources (all sizes 1-8 with every outcome vector and EVERY completion order for n=3, sizes around the 127/128/129 and 255/256/257 chunk boundaries, random sizes) × 0…130 -base/-diff_base sources, each source independently a valid profile (from the Fetcher plug-in, a file, or an HTTP body), or failing (Fetcher error, missing file, garbage file/body, invalid profile, HTTP 500, transport error); a stream of 2…8 sources (+ bases) mixing https:// (untrusted server: must fail; server trusted through -tls_ca: must succeed), https+insecure://, http:// and file/plug-in sources fetched through the PRODUCTION internal/transport against servers on 127.0.0.1, released one after the other in PRNG permutations, all-insecure-first and all-strict-first orders, plus one delay-scheduled run through the driver's default transport wiring; a stream of 2…7 sources (+ bases) whose mappings (same file name under several build ids, some without build id) are located under a generated $PPROF_BINARY_PATH tree (<buildid>/<name>, plain <name>, stale and missing entries) through a mock ObjTool, with failing neighbours, under ≥3 delay schedules; each case runs the real driver.PProf under ≥3 PRNG-derived delay schedules (random, reverse, failures-first) and with the failing sources failing differently. non-trivial = ≥2 sources, at least one success and one failure, an observed completion order that is not the command-line order and ≥2 distinct observed completion orders."
 	root, err := os.MkdirTemp("", "pvc16-")
 	if err != nil {
 		c.Res.HarnessError = "cannot create scratch directory: " + err.Error()
@@ -1595,6 +1660,10 @@ func c16Worker(c *Ctx) {
 	// (1b) URL sources through the production transport to local TLS / http servers, forced orders
 	for i := 0; i < 8*c.Scale; i++ {
 		k.runCase(c16GenReal(r.Fork(), i))
+	}
+	// (1c) mappings located under a $PPROF_BINARY_PATH tree: same file name under several build ids
+	for i := 0; i < 9*c.Scale; i++ {
+		k.runCase(c16GenBin(r.Fork(), i))
 	}
 	// (2) sizes 1…8, with and without bases
 	for n := 1; n <= 8; n++ {
